@@ -720,6 +720,9 @@ func main() {
 	// ---- S0: histories on shared state; first, while the process-wide state is untouched ----
 	historySweep(r, thorough)
 
+	// ---- long headers ----
+	longSweep(r)
+
 	// ---- S1: selection logic (plain ranges and q) ----
 	if !thorough {
 		typeSweep(r, "select", true, headers(elemProduct(ranges5, q4, none, none), 0, 3, []int{1}, false, nil), offerLists(offers5, 3), defs)
@@ -851,5 +854,5 @@ func main() {
 	r.Assume("the reference negotiation of props/c07/model.go is the meaning of the property text: score of an offer = maximum over the matching ranges of positive q of (exact rational q, specificity), first offer of maximal score wins, default when no offer has a score, first offer without header",
 		"a range carrying media-type parameters is judged under both readings (parameters ignored / must equal the offer's parameters); q spellings outside (0|1)[.digits], q above 1, distinct q values closer than 1e-9, an Accept header without any range and Accept-Encoding corner cases (no header, coding refused by name but admitted by *) are judged for totality and membership only",
 		"handler level: the declared media types are a/b, a/c, c/d without parameters and a producer is registered for each; the offer order is the one the running instance holds (go-openapi/analysis returns the declared list in map order), read from the matched route")
-	r.Finish("every abstract header of the stated element alphabets and lengths x whitespace variants x line splits x every ordered offer list (with duplicates) up to the stated length x default present/absent, each negotiated by the real code and compared with the reference; every byte string up to the stated length as a verbatim header value for totality and membership; every API configuration x header through the real API handler. One evaluation = one call of NegotiateContentType, Context.ResponseFormat, NegotiateContentEncoding, ParseAccept or one request through the handler. Non-trivial = the oracle was fully decisive and the mechanism was reached: structured header in which at least one range matches at least one offer (type/format/encoding), every fully judged request (handler), at least one range parsed (raw), every step executed after another step of its sequence (history). History dimension: every ordered pair (thorough: also every ordered triple without handler steps) of a 100-case collision alphabet (same header and offers with different defaults, same header with different offers, the four entry points), plus the whole list forward and backward, each sequence executed in one process under its own neutral salt range and on one shared API instance per configuration; each step must give exactly what it gives when run alone. The sweeps are disjoint by construction (filters notInS1 / withParams, distinct entry points, renderings deduplicated by text), so no (entry point, header text, offers, default) tuple is evaluated twice", !budgetCut.Load())
+	r.Finish("every abstract header of the stated element alphabets and lengths x whitespace variants x line splits x every ordered offer list (with duplicates) up to the stated length x default present/absent, each negotiated by the real code and compared with the reference; every byte string up to the stated length as a verbatim header value for totality and membership; every API configuration x header through the real API handler. One evaluation = one call of NegotiateContentType, Context.ResponseFormat, NegotiateContentEncoding, ParseAccept or one request through the handler. Non-trivial = the oracle was fully decisive and the mechanism was reached: structured header in which at least one range matches at least one offer (type/format/encoding), every fully judged request (handler), at least one range parsed (raw), every step executed after another step of its sequence (history). Long headers: 31..1000 ranges of which one decides, at the end, in the middle or first, on one or many header lines, through all entry points. History dimension: every ordered pair (thorough: also every ordered triple of a 78-case sub-alphabet without handler steps) of a 198-case collision alphabet (header-line lists that share lines, same header and offers with different defaults, same header with different offers, the four entry points), plus the whole list forward and backward, each sequence executed in one process under its own neutral salt range and on one shared API instance per configuration; each step must give exactly what it gives when run alone. The sweeps are disjoint by construction (filters notInS1 / withParams, distinct entry points, renderings deduplicated by text), so no (entry point, header text, offers, default) tuple is evaluated twice", !budgetCut.Load())
 }
